@@ -529,3 +529,5 @@ func refAuthorize(tok []SBlock, ops []azOp) refVerdict {
 	}
 	return v
 }
+
+func longDuration() datalog.WorldOption { return datalog.WithMaxDuration(20 * time.Second) }
